@@ -219,6 +219,24 @@ theorem src_default_exit_eq_model (out : Heap) (p : Path) (k : Key) (old : Obj) 
     simp [default_exit, gOps, isStrBytesA, kindIn, nodeOf, hnew, Kind.isSet, exitNode, Kind.isMutable, buildItems,
       Exc.isA, renumber, List.map_map, Function.comp_def]
 
+/-- the `.exit` step of the heap-level machine expressed through the translated `default_exit`: the value handed
+    on, the registry entry of the old parent and the rebuilt heap are what the SOURCE returns (hyp.: the new
+    parent is still the blank container created at enter time) -/
+theorem src_default_exit_drives_hstep (c : HCfg) (h : Heap) (root : Obj) (s : HSt) (k : Key) (old new : Nat)
+    (kd : Kind) (rest : List HFrame) (p : Path) (items : List (Key × Obj)) (nr : List (Path × List (Key × Obj)))
+    (hs : s.stack = .exit k old new kd :: rest) (he : s.err = none) (hn : s.nis = (p, items) :: nr)
+    (hnew : s.out[new]? = some ⟨kd, []⟩) :
+    ∃ ret out2, default_exit (gOps id) s.out p k (.ref old) (.ref new) items = .ok (ret, out2) ∧
+      hstep c h root s = some (match nr with
+        | [] => { s with stack := rest, path := p, nis := [], out := out2, value := ret,
+                         reg := (old, ret) :: s.reg, trace := s.trace ++ [.exit old] }
+        | _ :: _ => finishItem c { s with stack := rest, path := p, nis := nr, out := out2, value := ret,
+                                          reg := (old, ret) :: s.reg, trace := s.trace ++ [.exit old] }
+                      rest k (.ref old) ret) := by
+  refine ⟨(exitNode kd new items s.out).2, (exitNode kd new items s.out).1,
+    src_default_exit_eq_model s.out p k (.ref old) new kd items hnew, ?_⟩
+  cases nr <;> simp [hstep, hs, he, hn]
+
 /-- a scalar as new parent: the source raises `RuntimeError` (the model never gets there) -/
 theorem src_default_exit_scalar (out : Heap) (p : Path) (k : Key) (old : Obj) (i : Int)
     (items : List (Key × Obj)) :
